@@ -443,7 +443,11 @@ func (w *world) afterDisconnect(sig, where string) (bool, error) {
 	w.sh.spinDone[sig]++
 	w.sh.mu.Unlock()
 	w.sinceSpin++
-	if n < 1 || w.quickSpin() {
+	if w.quickSpin() {
+		return w.spinCheck(sig, where), nil
+	}
+	if n < 1 {
+		// the first time for this signature: the long look even though the quick one saw nothing
 		return w.spinCheck(sig, where), nil
 	}
 	return true, nil
@@ -463,6 +467,14 @@ func (w *world) quickSpin() bool {
 func (w *world) spinCheck(sig, where string) bool {
 	pid := w.srv.Pid()
 	w.sh.mu.Lock()
+	known := w.sh.silent[sig+"/spin"] != ""
+	w.sh.mu.Unlock()
+	if known {
+		// reported already for this signature and the quick look says it is busy again: only get a clean server
+		w.restart()
+		return false
+	}
+	w.sh.mu.Lock()
 	w.sh.spinFull++
 	w.sh.mu.Unlock()
 	w.sinceSpin = 0
@@ -481,6 +493,9 @@ func (w *world) spinCheck(sig, where string) bool {
 		}
 	}
 	rss1 := w.srv.RSSKiB()
+	w.sh.mu.Lock()
+	w.sh.silent[sig+"/spin"] = "spin"
+	w.sh.mu.Unlock()
 	w.violate(sig+"/spin-after-disconnect", fmt.Sprintf("%s, then the client closed the connection: 3 s later the server still uses %d%% of a core with no client talking to it, resident set %d -> %d MiB in those 3 s",
 		where, c1-c0, rss0/1024, rss1/1024))
 	w.restart()
@@ -611,6 +626,7 @@ func walkGraph(r *ev.Run, sh *shared, m *sess.Model, seed int64) {
 				}
 				if !ok || w.srv == nil {
 					ok = false
+					pl.Avoid(t)
 					break
 				}
 				cur = t.PostKey
@@ -653,9 +669,15 @@ func run(r *ev.Run, tier, replay string) {
 		r.Machinery("TLC printed %d behaviours and %d transitions", len(lines.Behaviours), len(errrun.Trans))
 		return
 	}
-	// behaviours with a heavy first line last: they are few and slow
-	bs := lines.Behaviours
-	sort.SliceStable(bs, func(i, j int) bool { return !isHeavy(bs[i]) && isHeavy(bs[j]) })
+	// behaviours with a heavy first line are few and slow: they get servers of their own
+	var bs, hv []*sess.Behaviour
+	for _, b := range lines.Behaviours {
+		if isHeavy(b) {
+			hv = append(hv, b)
+		} else {
+			bs = append(bs, b)
+		}
+	}
 	parts := 8
 	t0 := time.Now()
 	for p := 0; p < parts; p++ {
@@ -663,6 +685,17 @@ func run(r *ev.Run, tier, replay string) {
 		go func(p int) {
 			defer wg.Done()
 			replayBehaviours(r, sh, bs, p, parts, seed, heavy, len(bs)/parts/2+1)
+		}(p)
+	}
+	hparts := len(hv)
+	if hparts > 6 {
+		hparts = 6
+	}
+	for p := 0; p < hparts; p++ {
+		wg.Add(1)
+		go func(p int) {
+			defer wg.Done()
+			replayBehaviours(r, sh, hv, p, hparts, seed, heavy, 1)
 		}(p)
 	}
 	wg.Add(1)
